@@ -27,14 +27,14 @@ LEVEL_NOTE = ('trusts: the twin model built from the same spec+edits; counters a
               'max_parallel_batches=1 (used for counter checks); stale stores are dropped by the history as a user must')
 RULE = ('cases = inference-model spec x stored set (non-empty subset of simulator+descendants, optionally plus all parameters) x OutputPool | '
         'ArrayPool x batch size x seed x history of 2-6 steps (rerun same, rerun needing more batches, remove a store, replace a summary, replace '
-        'the distance, close+open / pickle the pool) each a Rejection run (n_sim | quantile | threshold); distinct = hash of the case; non-trivial = '
+        'the distance, close+open / pickle the pool, flush-without-save then reopen the earlier save) each a Rejection run, on a fresh or on the same sampler object (n_sim | quantile | threshold); distinct = hash of the case; non-trivial = '
         'some step ran while the pool already held >= 1 batch of >= 1 requested stored node')
 ASSUMPTIONS = ['n_sim >= n_samples; parameter stores are all-or-none; stores of edited nodes and their descendants are dropped before the next run']
 CONFIG = {
     'quick': {'shards': 16, 'cases': 6, 'timeout': 900, 'floor': 30},
     'thorough': {'shards': 32, 'cases': 90, 'timeout': 3400, 'floor': 900},
 }
-REQUIRED = ['steps', 'reuse_steps', 'results_compared', 'call_counters_checked', 'pool_batches_compared', 'context_refusals_checked',
+REQUIRED = ['steps_reusing_sampler_object', 'crash_reopen_steps', 'steps', 'reuse_steps', 'results_compared', 'call_counters_checked', 'pool_batches_compared', 'context_refusals_checked',
             'pool_memory', 'pool_disk', 'edit_steps', 'scheduled_steps', 'steps_loading_from_pool']
 
 KNOWN_KEY = 'stochastic-node-rerun-after-pool-loaded-prior'
@@ -58,8 +58,16 @@ def gen_cases(ctx):
         if len(fin) < 100:
             continue
         steps = []
-        for si in range(int(rng.integers(2, 7))):
-            act = str(rng.choice(['same', 'more', 'more', 'rmstore', 'edit_summary', 'edit_disc', 'reopen'])) if si else 'fill'
+        disk = bool(rng.random() < 0.35)
+        reuse_sampler = bool(rng.random() < 0.5)
+        fixed_outputs = [str(x) for x in rng.choice(summ, size=int(rng.integers(0, len(summ) + 1)), replace=False)]
+        # hostile motif on disk: save, run on, flush without saving again, reopen the earlier save, need more batches
+        motif = ['fill', 'reopen', 'more', 'crash_reopen', 'more'] if (disk and rng.random() < 0.6) else None
+        for si in range(int(rng.integers(2, 7)) if not motif else int(rng.integers(5, 8))):
+            acts = ['same', 'more', 'more', 'rmstore', 'rmstore', 'edit_summary', 'edit_disc', 'reopen'] + (['crash_reopen'] * 2 if disk else [])
+            act = str(rng.choice(acts)) if si else 'fill'
+            if motif and si < len(motif):
+                act = motif[si]
             n = int(rng.choice([3, 7]))
             form = str(rng.choice(['n_sim', 'n_sim', 'quantile', 'threshold']))
             if form == 'n_sim':
@@ -68,7 +76,10 @@ def gen_cases(ctx):
                 obj = {'quantile': float(rng.choice([0.2, 0.5]))}
             else:
                 obj = {'threshold': float(fin[int(len(fin) * float(rng.choice([0.3, 0.6])))])}
-            step = {'act': act, 'n': n, 'obj': obj, 'outputs': [str(x) for x in rng.choice(summ, size=int(rng.integers(0, len(summ) + 1)), replace=False)],
+            if motif and si < len(motif):
+                obj = {'n_sim': int(max(n, [bs * 3 + 1, bs * 3 + 1, bs * 6, bs * 6, bs * 9 + 2][si]))}
+            step = {'act': act, 'n': n, 'obj': obj,
+                    'outputs': fixed_outputs if reuse_sampler else [str(x) for x in rng.choice(summ, size=int(rng.integers(0, len(summ) + 1)), replace=False)],
                     'client': 'scheduled' if rng.random() < 0.25 else 'native'}
             if step['client'] == 'scheduled':
                 step['schedule'] = {'seed': int(rng.integers(0, 10 ** 6)), 'regime': str(rng.choice(['eager', 'newest', 'random', 'bursty'])),
@@ -82,7 +93,7 @@ def gen_cases(ctx):
                 step['pick'] = float(rng.random())
             steps.append(step)
         made += 1
-        yield {'spec': spec, 'stored': stored, 'bs': bs, 'seed': seed, 'disk': bool(rng.random() < 0.35), 'steps': steps}
+        yield {'spec': spec, 'stored': stored, 'bs': bs, 'seed': seed, 'disk': disk, 'steps': steps, 'reuse_sampler': reuse_sampler}
 
 
 def _summary_fn(spec, name, scale):
@@ -114,24 +125,34 @@ def _build(spec, version):
     return m
 
 
-def _run(m, case, step, pool, client=None):
+def _run(m, case, step, pool, client=None, keep=None):
+    """keep: dict holding a sampler object to be reused across steps (same model, native client), or None."""
     import elfi
     import elfi.client
     import elfi.clients.native as nat
-    elfi.client.set_client(client or nat.Client())
     models.reset_log()
     mpb = step['schedule']['mpb'] if (client is not None) else 1
-    rej = elfi.Rejection(m['d'], batch_size=case['bs'], seed=case['seed'], pool=pool, output_names=list(step['outputs']),
-                         max_parallel_batches=mpb)
-    hist = []
-    upd = rej.update
+    if keep is not None and keep.get('rej') is not None and client is None:
+        rej, hist = keep['rej'], keep['hist']
+        del hist[:]
+        keep['reused'] = True
+    else:
+        elfi.client.set_client(client or nat.Client())
+        rej = elfi.Rejection(m['d'], batch_size=case['bs'], seed=case['seed'], pool=pool, output_names=list(step['outputs']),
+                             max_parallel_batches=mpb)
+        hist = []
+        upd = rej.update
 
-    def recording_update(batch, batch_index):
-        hist.append(batch_index)
-        return upd(batch, batch_index)
-    rej.update = recording_update
+        def recording_update(batch, batch_index):
+            hist.append(batch_index)
+            return upd(batch, batch_index)
+        rej.update = recording_update
+        if keep is not None:
+            keep['reused'] = False
+            if client is None:
+                keep['rej'], keep['hist'] = rej, hist
     r = rej.sample(step['n'], bar=False, **step['obj'])
-    return r, dict(models.CALLS), hist
+    return r, dict(models.CALLS), list(hist)
 
 
 def _drop(pool, x):
@@ -167,6 +188,8 @@ def run_case(ctx, case):
     version = {'summ': {}, 'disc': 0}
     m = _build(spec, version)            # the live model, edited in place with become()
     held = {s: set() for s in case['stored']}
+    saved_held = None          # what the pool held when it was last saved (close/save)
+    keep = {} if case.get('reuse_sampler') else None
     nontrivial = False
     try:
         for si, step in enumerate(case['steps']):
@@ -202,12 +225,29 @@ def run_case(ctx, case):
                         _drop(pool, x)
                         pool.add_store(x)
                         held[x] = set()
+            if act in ('edit_summary', 'edit_disc') and keep is not None:
+                keep.clear()       # a sampler works on a copy of the model taken when it was created
             if act == 'reopen' and pool.has_context:
                 if case['disk']:
                     pool.close()
+                    saved_held = {k: set(v) for k, v in held.items()}
                     pool = elfi.ArrayPool.open('p', prefix=tmp)
                 else:
                     pool = pickle.loads(pickle.dumps(pool))
+                if keep is not None:
+                    keep.clear()   # the old sampler holds the old pool object
+            if act == 'crash_reopen' and case['disk'] and pool.has_context and saved_held is not None \
+                    and set(saved_held) == set(pool.stores) and all(saved_held[k] <= held[k] for k in saved_held):
+                # the process flushed its data but went away without saving the pool again: reopen what was saved earlier
+                pool.flush()
+                for st_ in pool.stores.values():
+                    if st_ is not None:
+                        st_.close()
+                pool = elfi.ArrayPool.open('p', prefix=tmp)
+                held = {k: set(v) for k, v in saved_held.items()}
+                ctx.event('crash_reopen_steps')
+                if keep is not None:
+                    keep.clear()
             stores_now = list(pool.stores)
 
             ref, _c, ref_hist = _run(_build(spec, version), case, step, None)
@@ -217,7 +257,9 @@ def run_case(ctx, case):
                 client = ScheduledClient(sc['seed'], 2, sc['regime'], sc['mpb'], prop='C05')
                 ctx.event('scheduled_steps')
             try:
-                got, calls, hist = _run(m, case, step, pool, client)
+                got, calls, hist = _run(m, case, step, pool, client, keep)
+                if keep is not None and keep.get('reused'):
+                    ctx.event('steps_reusing_sampler_object')
             finally:
                 elfi.client.set_client(nat.Client())
             ctx.event('steps')
